@@ -143,6 +143,60 @@ theorem C14_model_verdict_ok (c : Cfg) (ex : Expiry) (hcf : c.countFails = (ex !
   rw [← h2] at this
   exact this
 
+/-! ### how long a failure lives (logical clock, `Timed` in Model/Accounting.lean) -/
+
+/-- `S` is reachable in the timed semantics with fail_timeout = `ft` ticks -/
+def TReachable (c : Cfg) (ft n : Nat) (S : Timed) : Prop := ∃ es, trun c ft (Timed.init c n) es = some S
+
+theorem treachable_twf {c : Cfg} {ft n : Nat} {S : Timed} (h : TReachable c ft n S) : TWF c ft S := by
+  obtain ⟨es, hes⟩ := h
+  exact twf_trun c ft es _ _ (twf_init c ft n) hes
+
+/-- Recording: when a request's failure is counted on backend `h` at time `now`, the failure
+`(h, now)` is pending from then on. -/
+theorem C14_failure_recorded (c : Cfg) (ft : Nat) (S S' : Timed) (t h : Nat) (again : Bool)
+    (hcf : c.countFails = true) (hpc : S.base.pcs[t]? = some (.failed h))
+    (hs : tstep c ft S (.ev (.countFail t again)) = some S') : (h, S.now) ∈ S'.pending := by
+  simp only [tstep] at hs
+  cases hb : step c S.base (.countFail t again) with
+  | none => simp [hb] at hs
+  | some b =>
+    simp only [hb, hpc, hcf, if_true, Option.some.injEq] at hs
+    subst hs
+    simp
+
+/-- A failure recorded at time t on backend h is pending — and counted in `Fails h` — at every
+later moment before t + fail_timeout, whatever happens in between (other requests, other failures
+and their expiries, health checks, the request that caused it ending or going on retrying, how
+long that request had been running when it failed). -/
+theorem C14_failure_lives_fail_timeout (c : Cfg) (ft n : Nat) (S S' : Timed) (es : List TEvent)
+    (hr : TReachable c ft n S) (h t : Nat) (hp : (h, t) ∈ S.pending)
+    (hrun : trun c ft S es = some S') (hbefore : S'.now < t + ft) :
+    (h, t) ∈ S'.pending ∧ getI S'.base.fails h ≥ 1 := by
+  have hkeep := trun_keeps c ft es S S' hrun (h, t) hp hbefore
+  refine ⟨hkeep, ?_⟩
+  have hw' := twf_trun c ft es S S' (treachable_twf hr) hrun
+  have hcount := hw'.count h
+  have hpos : pendingOn S' h ≥ 1 := by
+    unfold pendingOn
+    exact List.length_pos_of_mem (List.mem_filter.mpr ⟨hkeep, by simp⟩)
+  rw [hw'.base.failsExact h]
+  omega
+
+/-- … and it is gone right at t + fail_timeout: no pending failure is ever overdue. -/
+theorem C14_failure_expires_on_time (c : Cfg) (ft n : Nat) (S : Timed) (hr : TReachable c ft n S)
+    (h t : Nat) (hlate : S.now > t + ft) : (h, t) ∉ S.pending := by
+  intro hp
+  have := (treachable_twf hr).notLate (h, t) hp
+  simp only at this
+  omega
+
+/-- The failure counter is the number of pending (recorded, unexpired) failures also in the timed runs. -/
+theorem C14_fails_exact_timed (c : Cfg) (ft n : Nat) (S : Timed) (hr : TReachable c ft n S) (h : Nat) :
+    getI S.base.fails h = (pendingOn S h : Int) := by
+  have hw := treachable_twf hr
+  rw [hw.base.failsExact h, hw.count h]
+
 /-! Non-vacuity and the race the repair closes (tests on concrete schedules). -/
 
 /-- test: max_conns 1, two requests select backend 0 before either has reserved it (the window the
@@ -160,5 +214,25 @@ example :
       (State.init { nHosts := 1, maxConns := 0, maxFails := 1, countFails := true, unhealthy := [false] } 1)
       [.select 0 (some 0) false, .reserve 0, .finish 0 .err, .countFail 0 false, .timer 0]).map
       (fun s => (s.pcs, s.conns, s.fails, s.timers)) = some ([.done], [0], [0], [0]) := by decide
+
+/-- test (timed): fail_timeout 7 ticks; the request has been running for 4 ticks when its failure is
+recorded; 6 ticks later (t = 10 < 4 + 7) the failure still counts, the expiry is not yet enabled, one tick
+later it is, and time cannot pass t = 11 before it has fired -/
+def timedCfg : Cfg := { nHosts := 1, maxConns := 0, maxFails := 1, countFails := true, unhealthy := [false] }
+example :
+    (trun timedCfg 7 (Timed.init timedCfg 1)
+      [.ev (.select 0 (some 0) false), .ev (.reserve 0), .tick 4, .ev (.finish 0 .err), .ev (.countFail 0 false), .tick 6]).map
+      (fun S => (S.now, S.pending, S.base.fails)) = some (10, [(0, 4)], [1]) := by decide
+example :
+    trun timedCfg 7 (Timed.init timedCfg 1)
+      [.ev (.select 0 (some 0) false), .ev (.reserve 0), .tick 4, .ev (.finish 0 .err), .ev (.countFail 0 false), .tick 6,
+       .ev (.timer 0)] = none := by decide
+example :
+    trun timedCfg 7 (Timed.init timedCfg 1)
+      [.ev (.select 0 (some 0) false), .ev (.reserve 0), .tick 4, .ev (.finish 0 .err), .ev (.countFail 0 false), .tick 8] = none := by decide
+example :
+    (trun timedCfg 7 (Timed.init timedCfg 1)
+      [.ev (.select 0 (some 0) false), .ev (.reserve 0), .tick 4, .ev (.finish 0 .err), .ev (.countFail 0 false), .tick 7,
+       .ev (.timer 0), .tick 3]).map (fun S => (S.now, S.pending, S.base.fails)) = some (14, [], [0]) := by decide
 
 end Casket.Props.C14
